@@ -469,6 +469,40 @@ func replaySchemaCase(cs *SchemaCase, eng Engine, roundTrip bool) (*run.Finding,
 			got, _ := model.Project(n2)
 			return fail("build", rule2, "accepted", fmt.Sprintf("fed %v: built %v", in, got)), checks, extra
 		}
+		// The third route: the same tree held by the REFLECTION BINDING under another schema (the untyped containers and
+		// plain scalars of model.AnyTS, whose Go types coincide with those of many typed positions: string, int64, ...),
+		// handed over with AssignNode -- the typed node at type level, its representation node at representation level.
+		// A builder must judge the DATA, not the Go type it happens to arrive in.  Same verdict again.
+		if src, berr := (model.Conc{}).BuildImpl("bind", in); berr == nil {
+			if tn, ok := src.(schema.TypedNode); ok && level == "repr" {
+				src = tn.Representation()
+			}
+			var n3 datamodel.Node
+			var cerr error
+			p3 := model.Safe(func() {
+				nb := np.NewBuilder()
+				cerr = nb.AssignNode(src)
+				if cerr == nil {
+					n3 = nb.Build()
+				}
+			})
+			checks++
+			rule3 := strings.Replace(rule, "-builder:", "-builder(AssignNode of a bindnode node of another schema):", 1)
+			if p3 != nil {
+				return fail("build", rule3, "panic", fmt.Sprintf("fed %v: %v", in, p3)), checks, extra
+			}
+			if cs.Ok {
+				if cerr != nil {
+					return fail("build", rule3, "rejected", fmt.Sprintf("fed %v: %v", in, cerr)), checks, extra
+				}
+				if f := checkAccepted(n3, "AssignNode-bind("+level+")"); f != nil {
+					return f, checks, extra
+				}
+			} else if cerr == nil {
+				got, _ := model.Project(n3)
+				return fail("build", rule3, "accepted", fmt.Sprintf("fed %v: built %v", in, got)), checks, extra
+			}
+		}
 	}
 	// encode the representation, decode through the representation builder, encode again
 	if roundTrip && cs.Ok && typed != nil {
